@@ -10,13 +10,20 @@
 #include <tins/rtp.h>
 #include <tins/vxlan.h>
 #include <memory>
+#include <type_traits>
 
 namespace inspect {
 using namespace Tins;
 struct Counters { uint64_t calls, tins_exc, layers, app_decodes; Counters() : calls(0), tins_exc(0), layers(0), app_decodes(0) {} };
-template <class T> inline void sink(const T& v) { volatile char c = *(const char*)&v; (void)c; }
-inline void sink(const std::string& s) { volatile size_t n = s.size(); (void)n; for (char ch : s) { volatile char c = ch; (void)c; } }
-template <class T> inline void sink(const std::vector<T>& v) { volatile size_t n = v.size(); (void)n; for (auto& x : v) sink(x); }
+// every arithmetic / enum / string value an accessor returns is folded into a per-thread digest (class types are only evaluated: their padding
+// bytes are indeterminate). The wire engine compares the digest of two executions that differ only in the byte pattern fresh heap memory is
+// filled with: a difference means the result was computed from memory nobody initialised.
+inline uint64_t& digest() { static thread_local uint64_t d = 0; return d; }
+inline void fold(uint64_t v) { uint64_t& d = digest(); d = (d ^ v) * 0x100000001b3ULL; d ^= d >> 29; }
+template <class T> inline typename std::enable_if<std::is_arithmetic<T>::value || std::is_enum<T>::value>::type sink(const T& v) { fold((uint64_t)v); }
+template <class T> inline typename std::enable_if<!(std::is_arithmetic<T>::value || std::is_enum<T>::value)>::type sink(const T& v) { volatile char c = *(const char*)&v; (void)c; }
+inline void sink(const std::string& s) { fold(s.size()); for (char ch : s) fold((uint8_t)ch); }
+template <class T> inline void sink(const std::vector<T>& v) { fold(v.size()); for (auto& x : v) sink(x); }
 template <class A, class B> inline void sink(const std::pair<A, B>& p) { sink(p.first); sink(p.second); }
 #define G(o, m) do { ++c.calls; try { sink((o).m()); } catch (Tins::exception_base&) { ++c.tins_exc; } } while (0)
 #define GV(o, m) do { ++c.calls; try { (void)(o).m(); } catch (Tins::exception_base&) { ++c.tins_exc; } } while (0)
